@@ -904,8 +904,11 @@ def _theorems_at_error_lines(family: str, log: str) -> set:
     starts = [(i + 1, m.group(1)) for i, line in enumerate(src.read_text().splitlines())
               for m in [re.match(r"\s*theorem\s+(\w+)", line)] if m]
     out = set()
-    for m in re.finditer(re.escape(f"{family}.lean") + r":(\d+):\d+:\s*error", log):
-        ln = int(m.group(1))
+    for m in re.finditer(r"^.*error.*$", log, re.M):  # `error: path:LINE:COL: msg` (lake) or `path:LINE:COL: error: msg`
+        mm = re.search(re.escape(f"{family}.lean") + r":(\d+):\d+", m.group(0))
+        if not mm:
+            continue
+        ln = int(mm.group(1))
         prev = [n for (l, n) in starts if l <= ln]
         if prev:
             out.add(prev[-1])
@@ -1004,8 +1007,8 @@ def run(ctx: Ctx) -> Outcome:
                     reltols.append((TOL_K * m["bound"] + 4 * _ulp(m["exp"])) / abs(m["exp"]))
                 if j is not None:
                     fails.append((p, j))
-            if len(out.samples) < 3 and pts:
-                k = min(len(pts) - 1, 20)
+            if (t.unit, idx) in (("Divide", 1), ("Tanh", 0), ("Arctan2", 0)) and pts:
+                k = min(len(pts) - 1, 40)
                 out.samples.append({"op": t.unit, "operand": idx, "point": pts[k], "expected": ms[k].get("exp"),
                                     "implementation": got[k]})
             if fails:
@@ -1059,6 +1062,12 @@ def run(ctx: Ctx) -> Outcome:
                 f"expected {f.get('expected')} got {f.get('got', f.get('what'))}",
                 {"stratum": "scalar", "kind": "where-broadcast", "unit": r["unit"], "k": r["k"], "seed": ctx.seed, "case": f}))
     out.stats["where_broadcast_cases"] = nwb
+    out.extra["c02_scalar_trusted"] = [
+        "harness/props/c02_trace.py: Sym tracer, lowering, IR->Lean printer, the table NumPy ufunc -> Mathlib real function "
+        "(LEAN_UN / LEAN_BIN) and the definedness side conditions (lean_dom)",
+        "lean/MG/Proofs/Lemmas/NumpyReal.lean: real-number reading of np.cbrt, np.sinc, np.arctan2",
+        "harness/c02_mp_oracle.py + mpmath 1.3.0: 50-digit numerical differentiation of the forward function",
+    ]
     out.assumptions = [
         "theorems are over ℝ; that float64 kernels approximate the real functions is NumPy's contract (C03)",
         "the Sym tracer, the IR->Lean printer and the ufunc->Mathlib table are trusted; mitigated by the bitwise validation "
@@ -1124,7 +1133,9 @@ MANIFEST_TEXT = (
     "(lean/MG/Gen/ScalarOps.lean, regenerated on every check) and proved, per (op, operand), to satisfy "
     "∃ d, HasDerivAt fwd d x ∧ ∀ g, bwd g x = g*d on NumPy's domain (MG/Proofs/C02Scalar/*.lean), with the documented "
     "conventions (|x| at 0 incl. nan_to_num=False, max/min ties, arcsin/arccos/arccsc/arcsec at ±1, relu/elu/selu at 0) "
-    "as separate theorems. A direct oracle compares the implementation's gradients with a 50-digit mpmath derivative of "
+    "as separate theorems that also assert definedness (dom_bwd_*: no division by zero / log or root outside its domain "
+    "in the selected branch, since Lean's x/0 = 0 would otherwise make '0 rather than NaN' provable vacuously); sinc is "
+    "proved differentiable at 0 with the code's value 0. A direct oracle compares the implementation's gradients with a 50-digit mpmath derivative of "
     "the forward function and checks conventions, where= masks and broadcast reduction exactly.")
 MANIFEST_NOTE = (
     "Scalar stratum: theorems are over ℝ (floats approximating reals is NumPy's contract); trusted: the Sym tracer, the "
